@@ -1634,6 +1634,7 @@ impl UntypedPattern {
             PatternEnum::NumUnsigned(n, suffix) => {
                 if let Some(ty) = &ty {
                     expect_num_type(ty, meta)?;
+                    expect_pattern_num_in_range(*n as i128, ty, meta)?;
                     PatternEnum::NumUnsigned(*n, *suffix)
                 } else {
                     return Err(vec![None]);
@@ -1642,6 +1643,7 @@ impl UntypedPattern {
             PatternEnum::NumSigned(n, suffix) => {
                 if let Some(ty) = &ty {
                     expect_signed_num_type(ty, meta)?;
+                    expect_pattern_num_in_range(*n as i128, ty, meta)?;
                     PatternEnum::NumSigned(*n, *suffix)
                 } else {
                     return Err(vec![None]);
@@ -1650,6 +1652,8 @@ impl UntypedPattern {
             PatternEnum::UnsignedInclusiveRange(from, to, suffix) => {
                 if let Some(ty) = &ty {
                     expect_num_type(ty, meta)?;
+                    expect_pattern_num_in_range(*from as i128, ty, meta)?;
+                    expect_pattern_num_in_range(*to as i128, ty, meta)?;
                     PatternEnum::UnsignedInclusiveRange(*from, *to, *suffix)
                 } else {
                     return Err(vec![None]);
@@ -1658,6 +1662,8 @@ impl UntypedPattern {
             PatternEnum::SignedInclusiveRange(from, to, suffix) => {
                 if let Some(ty) = &ty {
                     expect_signed_num_type(ty, meta)?;
+                    expect_pattern_num_in_range(*from as i128, ty, meta)?;
+                    expect_pattern_num_in_range(*to as i128, ty, meta)?;
                     PatternEnum::SignedInclusiveRange(*from, *to, *suffix)
                 } else {
                     return Err(vec![None]);
@@ -2362,6 +2368,26 @@ fn expect_signed_num_type(ty: &Type, meta: MetaInfo) -> Result<(), TypeErrors> {
             meta,
         ))]),
     }
+}
+
+/// A number written in a pattern must be representable in the number type of the value that
+/// is matched (otherwise the compiled comparison would silently truncate it).
+fn expect_pattern_num_in_range(n: i128, ty: &Type, meta: MetaInfo) -> Result<(), TypeErrors> {
+    let (min, max) = match ty {
+        Type::Unsigned(t) => (0, t.max().unwrap_or(u32::MAX as u64) as i128),
+        Type::Signed(t) => (
+            t.min().unwrap_or(i32::MIN as i64) as i128,
+            t.max().unwrap_or(i32::MAX as i64) as i128,
+        ),
+        _ => return Ok(()),
+    };
+    if n < min || n > max {
+        return Err(vec![Some(TypeError::new(
+            TypeErrorEnum::PatternDoesNotMatchType(ty.clone()),
+            meta,
+        ))]);
+    }
+    Ok(())
 }
 
 fn expect_bool_or_num_type(ty: &Type, meta: MetaInfo) -> Result<(), TypeErrors> {
